@@ -18,4 +18,5 @@ import (
 	_ "verifharness/props/c14"
 	_ "verifharness/props/c15"
 	_ "verifharness/props/c16"
+	_ "verifharness/props/c20"
 )
